@@ -567,7 +567,7 @@ pub fn check_run(ctx: &mut Ctx, run: &Run) -> Result<(), String> {
 
 pub fn run(ctx: &mut Ctx) {
     ctx.level = "fault_enumeration";
-    ctx.rule = "scenarios = generated product of operation (create / assert / U2F register at the authenticator API, create / assert through Client) x hmac-secret config x counter setting x store capability x rk/up/uv x user-validation outcome and suspensions x algorithm support x pin-auth x exclude/allow list (none, miss, hit) x PRF request x selected credential's counter and secrets x store suspensions. For every scenario: the fault-free run, EVERY fallible store call (find/save/update) of that run failing with each status of {0x00 (as the value the byte decodes to, or as the CTAP1 success value),0x01,0x2E,0x28,0x7F,0xF2,0x19} singly, and cancellation (drop) after EVERY number of polls 0..total; plus generated combinations of 2-3 faults with cancellation; plus histories on the shipped MemoryStore and Option slot whose ceremonies fail by themselves (refused user, excluded credential, unsupported algorithm, PRF the credential cannot serve, U2F key handles registered again or longer than 255 bytes; on a shared map also the selected credential removed by another party while the user is asked), judged by store snapshots before/after. Non-trivial = a run in which a fault was planned or the operation was dropped; distinct by run.".into();
+    ctx.rule = "scenarios = generated product of operation (create / assert / U2F register at the authenticator API, create / assert through Client) x hmac-secret config x counter setting x store capability x rk/up/uv x user-validation outcome and suspensions x algorithm support x pin-auth x exclude/allow list (none, miss, hit) x PRF request x selected credential's counter and secrets x store suspensions. For every scenario: the fault-free run, EVERY fallible store call (find/save/update) of that run failing with each status of {0x00 (as the value the byte decodes to, or as the CTAP1 success value),0x01,0x2E,0x28,0x7F,0xF2,0x19} singly, and cancellation (drop) after EVERY number of polls 0..total; plus generated combinations of 2-3 faults with cancellation; plus histories on the shipped MemoryStore and Option slot whose ceremonies fail by themselves (refused user, excluded credential, unsupported algorithm, PRF the credential cannot serve, U2F key handles registered again or longer than 255 bytes; on a shared map also the selected credential removed by another party while the user is asked), judged by store snapshots before/after. Since rounds 7/8: a reference store whose lookups lag behind its writes, another party using the selected credential 1-4 times during the prompt, attestation preference and timeout on client registrations. Non-trivial = a run in which a fault was planned or the operation was dropped; distinct by run.".into();
     ctx.assumptions = vec![
         "suspension points are the ones the public traits offer: user validation and every store call (the doubles suspend a generated number of times)".into(),
         "get_info of the store cannot fail (it returns no Result)".into(),
